@@ -382,27 +382,43 @@ impl IsoDate {
     ) -> TemporalResult<Self> {
         // 1. Assert: year, month, day, years, months, weeks, and days are integers.
         // 2. Assert: overflow is either "constrain" or "reject".
+        // NOTE: The field arithmetic is done in i64 so that no duration component can
+        // wrap around; a year or day count outside of the supported ISO range can never
+        // be balanced back into it and is rejected with a RangeError.
+        let years = i64::from(duration.years.as_date_value()?);
+        let months = i64::from(duration.months.as_date_value()?);
+        let weeks = i64::from(duration.weeks.as_date_value()?);
+        let days = i64::from(duration.days.as_date_value()?);
+
         // 3. Let intermediate be ! BalanceISOYearMonth(year + years, month + months).
-        let intermediate = balance_iso_year_month(
-            self.year + duration.years.as_date_value()?,
-            i32::from(self.month) + duration.months.as_date_value()?,
-        );
+        let month = i64::from(self.month) + months;
+        let year = i64::from(self.year) + years + (month - 1).div_euclid(12);
+        let month = (month - 1).rem_euclid(12) + 1;
+        if !(-271_821..=275_760).contains(&year) {
+            return Err(
+                TemporalError::range().with_message("Date is not within ISO date time limits.")
+            );
+        }
+        let intermediate = balance_iso_year_month(year as i32, month as i32);
 
         // 4. Let intermediate be ? RegulateISODate(intermediate.[[Year]], intermediate.[[Month]], day, overflow).
         let intermediate =
             Self::new_with_overflow(intermediate.0, intermediate.1, self.day, overflow)?;
 
         // 5. Set days to days + 7 × weeks.
-        let additional_days =
-            duration.days.as_date_value()? + (duration.weeks.as_date_value()? * 7);
         // 6. Let d be intermediate.[[Day]] + days.
-        let intermediate_days = i32::from(intermediate.day) + additional_days;
+        let intermediate_days = i64::from(intermediate.day) + days + weeks * 7;
+        if intermediate_days.abs() > 2 * i64::from(MAX_EPOCH_DAYS) + 31 {
+            return Err(
+                TemporalError::range().with_message("Date is not within ISO date time limits.")
+            );
+        }
 
         // 7. Return BalanceISODate(intermediate.[[Year]], intermediate.[[Month]], d).
         Ok(Self::balance(
             intermediate.year,
             intermediate.month.into(),
-            intermediate_days,
+            intermediate_days as i32,
         ))
     }
 
